@@ -126,7 +126,7 @@ pub fn check_one(text: &str, vm: &Vm, rule: &str, input: &str, limit: usize) -> 
     Ok(Some((false, 0, 0)))
 }
 
-fn check_case(ctx: &mut Ctx, g: &Gram, specs: &[InputSpec]) -> Result<(), Fail> {
+pub fn check_case(ctx: &mut Ctx, g: &Gram, specs: &[InputSpec]) -> Result<(), Fail> {
     let Some(p) = prepare(ctx, g)? else { return Ok(()) };
     let alpha = alphabet(&p.cg);
     for rule in &p.rules {
